@@ -29,5 +29,5 @@ e42781a C29 a commit passes the blockWrites check, DropPrefix blocks writes befo
 f93ab27 C12 base level over target, big L0 table from a first L0->L0 compaction holding the value, delete, second L0->L0 compaction
 c46bcff C29 crash inside DropAll after the memtable WALs were removed and before the tables were dropped
 551bbf3 C29 the last level emptied by DropPrefix (or shrunk by compacted deletes, or BaseLevelSize enlarged on re-open) while the level above holds a key, then a delete of that key and an L0 compaction
-a88586e C29 an iterator opened before DropPrefix is still open when the process crashes after the drop returned
+890f37e C29 an iterator opened before DropPrefix is still open when the process crashes after the drop returned
 L
